@@ -13,6 +13,7 @@ package main
 // functions of Model/Auth.lean must reproduce every line.
 
 import (
+	"bytes"
 	"fmt"
 	"math/big"
 	"strings"
@@ -21,14 +22,17 @@ import (
 	sdkmath "cosmossdk.io/math"
 	cryptotypes "github.com/cosmos/cosmos-sdk/crypto/types"
 	sdk "github.com/cosmos/cosmos-sdk/types"
+	txtypes "github.com/cosmos/cosmos-sdk/types/tx"
 	authtypes "github.com/cosmos/cosmos-sdk/x/auth/types"
 	govtypes "github.com/cosmos/cosmos-sdk/x/gov/types"
 	stakingtypes "github.com/cosmos/cosmos-sdk/x/staking/types"
 	"github.com/ethereum/go-ethereum/common"
+	"github.com/ethereum/go-ethereum/crypto"
 	"github.com/prysmaticlabs/prysm/v4/crypto/bls/blst"
 
 	"github.com/ExocoreNetwork/exocore/utils"
 	assetstypes "github.com/ExocoreNetwork/exocore/x/assets/types"
+	avstypes "github.com/ExocoreNetwork/exocore/x/avs/types"
 	dogfoodtypes "github.com/ExocoreNetwork/exocore/x/dogfood/types"
 	exominttypes "github.com/ExocoreNetwork/exocore/x/exomint/types"
 	distrtypes "github.com/ExocoreNetwork/exocore/x/feedistribution/types"
@@ -152,11 +156,14 @@ func (h *authH) boot(seed uint64, chainID string) {
 	h.mainnet = strings.HasPrefix(chainID, "exocore_233-")
 	// fund every account that will sign a cosmos/eth tx and commit, so that CheckTx (which reads the
 	// last committed state) knows them
-	for _, t := range []string{"eoa", "avsowner", "avsE", "stranger", "attacker", "paramchanger"} {
+	for _, t := range []string{"eoa", "avsowner", "avsE", "stranger", "attacker", "paramchanger", "avsT"} {
 		h.fund(NewActor(seed, t, 0))
 	}
 	for i := 0; i < 4; i++ {
 		h.fund(NewActor(seed, "victimop", i))
+	}
+	for _, o := range h.c.Operators { // the genesis operators sign task results
+		h.fund(o)
 	}
 	h.c.EndAndBegin(time.Second)
 	h.ctxFix()
@@ -508,6 +515,32 @@ func (h *authH) oracleGroup() {
 			h.line(f, true, nil, nil)
 		}
 	}
+	// two price messages in one tx — creator A (signs, first message) and creator B (second message) — with a
+	// single signer-info/signature for A plus one filler signature so that the signature COUNT matches the signer count
+	{
+		a, b := val0, val1
+		nA, _ := nonceOf(a.PubKey(), 2)
+		nB, isValB := nonceOf(b.PubKey(), 2)
+		mA := mkMsg(sdk.AccAddress(a.PubKey().Address()), int32(nA)+1, 2)
+		mB := mkMsg(sdk.AccAddress(b.PubKey().Address()), int32(nB)+1, 2)
+		bz, err := xbSignCosmos(c, txCfg, []sdk.Msg{mA, mB}, a.PubKey(), a, 0, 0, 200000, sdk.NewCoins(), false)
+		if err == nil {
+			var raw txtypes.TxRaw
+			if e := raw.Unmarshal(bz); e == nil {
+				raw.Signatures = append(raw.Signatures, bytes.Repeat([]byte{0x5a}, 64))
+				bz, _ = raw.Marshal()
+			}
+			before := xbSnapshot(c, c.Ctx, true)
+			r := xbDeliver(c, bz, true)
+			nB1, _ := nonceOf(b.PubKey(), 2)
+			admitted := r.Panic == "" && r.CheckCode == 0 && (r.DeliverCode == 0 || nB1 > nB)
+			h.env.Note(fmt.Sprintf("oracle:multiMsg-secondCreatorUnsigned:check=%d deliver=%d nonceB %d->%d log=%.80s", r.CheckCode, r.DeliverCode, nB, nB1, r.Log))
+			// decision line for creator B: its key is not among the signer infos
+			h.line(authFacts{entry: "oraclePrice", v: isValB, sig: "nopub", eq: true, name: "oracle.CreatePrice", ident: "multiMsg-secondCreatorUnsigned", forged: true}, admitted, before, nil)
+		} else {
+			h.env.Note("oracle-multi-build-error:" + err.Error())
+		}
+	}
 }
 
 // ---- group U: UpdateParams
@@ -561,6 +594,188 @@ func (h *authH) paramsGroup() {
 	}
 }
 
+// ---- group T: task results (MsgSubmitTaskResult → x/avs SetTaskResultInfo), both phases × signer identities; challenge
+//
+// There is no precompile path for task results: the message server is the only entry point.
+func (h *authH) taskLine(name, ident string, phase string, sigKind string, eq, same, isOp, payloadOk bool, accepted bool, before Snapshot, allowBank []string, wrong bool) {
+	env := h.env
+	op := fmt.Sprintf("auth.task %s %s %s %s %s %s", phase, sigKind, b01(eq), b01(same), b01(isOp), b01(payloadOk))
+	obs := "reject"
+	if accepted {
+		obs = "accept"
+	}
+	env.Op(op, obs)
+	desc := fmt.Sprintf("%s phase %s as %s (mainnet=%v) => %s", name, phase, ident, h.mainnet, obs)
+	h.hist = append(h.hist, desc)
+	env.Outcome(name + ".phase" + phase + "|" + ident + ":" + obs)
+	env.DistinctKey(name + "|" + phase + "|" + ident + "|" + b01(h.mainnet))
+	env.Eval("C10.reject-changes-nothing")
+	if !accepted && before != nil {
+		after := xbSnapshot(h.c, h.c.Ctx, true)
+		for _, a := range allowBank {
+			for _, sn := range []Snapshot{before, after} {
+				for k := range sn["bank"] {
+					if strings.Contains(k, a) {
+						delete(sn["bank"], k)
+					}
+				}
+			}
+		}
+		if st, det := xbDiff(before, after); len(st) > 0 {
+			h.violate("C10.reject-changes-nothing", "reject-dirty:"+name+":"+ident, fmt.Sprintf("%s rejected but changed %v: %s", desc, st, det))
+		}
+	}
+	env.Eval("C10.acts-only-for-caller")
+	if accepted && wrong {
+		h.violate("C10.acts-only-for-caller", "wrong-caller-admitted:"+name+".phase"+phase, desc+": a task result was stored for an operator that did not sign the transaction")
+	}
+}
+
+func (h *authH) taskGroup() {
+	c := h.c
+	seed := c.Cfg.Seed
+	avsT := NewActor(seed, "avsT", 0) // AVS whose task contract is its own address and whose only owner it is
+	victim, otherOp := c.Operators[1], c.Operators[0]
+	eoa := NewActor(seed, "eoa", 0)
+	stranger := NewActor(seed, "stranger", 0)
+	feeColl := fmt.Sprintf("%x", authtypes.NewModuleAddress(authtypes.FeeCollectorName).Bytes())
+	step := func(d time.Duration) {
+		if r := c.EndAndBegin(d); r.Halt != "" {
+			h.env.Note("halt-in-taskGroup")
+		}
+		h.ctxFix()
+	}
+	must := func(what string, ok bool) bool {
+		if !ok {
+			h.env.Note("taskGroup-setup-failed:" + what)
+		}
+		return ok
+	}
+	ok, _ := h.evmAccept(avsT.Eth, xbAvsAddr, h.abis.avs, "registerAVS", avsT.Eth, "avsT", uint64(1), avsT.Eth,
+		NewActor(seed, "slashT", 0).Eth, NewActor(seed, "rewardT", 0).Eth, []string{avsT.Acc.String()}, []string{c.AssetIDs[0]},
+		uint64(2), uint64(0), "minute", []uint64{1, 1, 5, 5})
+	if !must("registerAVS", ok) {
+		return
+	}
+	for _, o := range []Actor{victim, otherOp} {
+		ok, _ = h.evmAccept(avsT.Eth, xbAvsAddr, h.abis.avs, "registerOperatorToAVS", o.Eth)
+		must("optIn", ok)
+	}
+	sk := detBLS(seed, 77)
+	m32 := [32]byte{7, 7}
+	ok, _ = h.evmAccept(victim.Eth, xbAvsAddr, h.abis.avs, "registerBLSPublicKey", victim.Eth, "victim", sk.PublicKey().Marshal(), sk.Sign(m32[:]).Marshal(), m32[:])
+	if !must("bls", ok) {
+		return
+	}
+	// the voting power of the new AVS is computed at the end of its (minute) epoch
+	step(61 * time.Second)
+	step(61 * time.Second)
+	taskHash := []byte("task-hash-T")
+	ok, _ = h.evmAccept(avsT.Eth, xbAvsAddr, h.abis.avs, "createTask", avsT.Eth, "taskT", taskHash, uint64(1), uint64(2), uint64(60), uint64(2))
+	if !must("createTask", ok) {
+		return
+	}
+	taskID := uint64(1)
+	task, err := c.App.AVSManagerKeeper.GetTaskInfo(c.Ctx, "1", avsT.Eth.String())
+	if !must("getTask", err == nil) {
+		return
+	}
+	curEpoch := func() int64 {
+		e, _ := c.App.EpochsKeeper.GetEpochInfo(c.Ctx, "minute")
+		return e.CurrentEpoch
+	}
+	resp := respJSON(taskID, 100)
+	digest := crypto.Keccak256Hash(resp)
+	blsSig := sk.Sign(digest[:]).Marshal()
+	info := func(phase string) *avstypes.TaskResultInfo {
+		i := &avstypes.TaskResultInfo{TaskContractAddress: avsT.Eth.String(), OperatorAddress: victim.Acc.String(), TaskId: taskID, BlsSignature: blsSig, Stage: phase}
+		if phase != avstypes.TwoPhaseCommitOne {
+			i.TaskResponse = resp
+		}
+		return i
+	}
+	stored := func() string {
+		r, e := c.App.AVSManagerKeeper.GetTaskResultInfo(c.Ctx, victim.Acc.String(), avsT.Eth.String(), taskID)
+		if e != nil {
+			return "-"
+		}
+		return fmt.Sprintf("%s/%x/%s", r.Stage, r.TaskResponse, r.TaskResponseHash)
+	}
+	submit := func(phase, ident string, signer Actor, sigKind string, payloadOk bool) {
+		msg := &avstypes.SubmitTaskResultReq{FromAddress: signer.Acc.String(), Info: info(phase)}
+		acc := c.App.AccountKeeper.GetAccount(c.Ctx, signer.Acc)
+		if acc == nil {
+			h.env.Note("taskGroup-no-account:" + ident)
+			return
+		}
+		fee := sdk.NewCoins(sdk.NewCoin(utils.BaseDenom, sdkmath.NewIntWithDecimal(1, 16)))
+		signPriv := cryptotypes.PrivKey(signer.Priv)
+		if sigKind == "forged" { // FromAddress = the operator itself, but somebody else's key signs
+			signPriv = stranger.Priv
+		}
+		bz, err := xbSignCosmos(c, c.App.GetTxConfig(), []sdk.Msg{msg}, signer.Priv.PubKey(), signPriv, acc.GetAccountNumber(), acc.GetSequence(), 600000, fee, false)
+		if err != nil {
+			h.env.Note("taskGroup-build-error:" + ident)
+			return
+		}
+		before := xbSnapshot(c, c.Ctx, true)
+		pre := stored()
+		r := xbDeliver(c, bz, true)
+		accepted := r.Accepted() && stored() != pre
+		same := signer.Acc.Equals(victim.Acc)
+		h.taskLine("avs.SubmitTaskResult", ident, phase, sigKind, true, same, true, payloadOk, accepted, before,
+			[]string{fmt.Sprintf("%x", signer.Acc.Bytes()), feeColl}, !same || sigKind != "valid")
+	}
+	// the signers' funding was committed in boot(); CheckTx sees the state of the last commit, so commit the set-up
+	step(time.Second)
+	// ---- phase one (response window: epoch <= start + responsePeriod)
+	if !must("phase1-window", curEpoch() <= int64(task.StartingEpoch)+int64(task.TaskResponsePeriod)) {
+		return
+	}
+	submit(avstypes.TwoPhaseCommitOne, "nonOperator-namesOperator", eoa, "valid", true)
+	submit(avstypes.TwoPhaseCommitOne, "otherOperator-namesOperator", otherOp, "valid", true)
+	submit(avstypes.TwoPhaseCommitOne, "operatorFrom-forgedSig", victim, "forged", true)
+	submit(avstypes.TwoPhaseCommitOne, "operator-itself", victim, "valid", true)
+	// ---- phase two (statistical window: start + resp < epoch <= start + resp + stat): the operator's phase-one
+	// signature and the response it committed to are public; a foreign signer replays them
+	for curEpoch() <= int64(task.StartingEpoch)+int64(task.TaskResponsePeriod) {
+		step(61 * time.Second)
+	}
+	if !must("phase2-window", curEpoch() <= int64(task.StartingEpoch)+int64(task.TaskResponsePeriod)+int64(task.TaskStatisticalPeriod)) {
+		return
+	}
+	submit(avstypes.TwoPhaseCommitTwo, "nonOperator-replaysOperatorCommit", eoa, "valid", true)
+	submit(avstypes.TwoPhaseCommitTwo, "otherOperator-replaysOperatorCommit", otherOp, "valid", true)
+	submit(avstypes.TwoPhaseCommitTwo, "operatorFrom-forgedSig", victim, "forged", true)
+	submit("3", "nonOperator-unknownStage", eoa, "valid", false)
+	submit(avstypes.TwoPhaseCommitTwo, "operator-itself", victim, "valid", true)
+	// ---- challenge (challenge window: start+resp+stat < epoch <= … + challengePeriod): bound to the calling task
+	// contract; the property also asks for a listed owner as sender argument
+	for curEpoch() <= int64(task.StartingEpoch)+int64(task.TaskResponsePeriod)+int64(task.TaskStatisticalPeriod) {
+		step(61 * time.Second)
+	}
+	respHash := abiDigest(resp)
+	chal := func(ident string, from common.Address, sender common.Address, payloadOk bool, nonOwner bool) {
+		ok, before := h.evmAccept(from, xbAvsAddr, h.abis.avs, "challenge", sender, taskHash, taskID, respHash, victim.Acc.String())
+		h.env.Op(fmt.Sprintf("auth.challenge %s", b01(payloadOk)), map[bool]string{true: "accept", false: "reject"}[ok])
+		desc := fmt.Sprintf("avs.challenge as %s (mainnet=%v) => %v", ident, h.mainnet, ok)
+		h.hist = append(h.hist, desc)
+		h.env.Outcome("avs.challenge|" + ident + ":" + map[bool]string{true: "accept", false: "reject"}[ok])
+		h.env.DistinctKey("avs.challenge|" + ident + "|" + b01(h.mainnet))
+		h.env.Eval("C10.acts-only-for-caller")
+		if !ok {
+			after := xbSnapshot(c, c.Ctx, true)
+			if st, det := xbDiff(before, after); len(st) > 0 {
+				h.violate("C10.reject-changes-nothing", "reject-dirty:avs.challenge:"+ident, fmt.Sprintf("%s rejected but changed %v: %s", desc, st, det))
+			}
+		} else if nonOwner {
+			h.violate("C10.acts-only-for-caller", "non-owner-admitted:avs.challenge", desc+": a challenge was recorded for a sender that is not a listed owner of the AVS")
+		}
+	}
+	chal("foreignCaller-ownerArg", stranger.Eth, avsT.Eth, false, false) // not the task contract: no such task for that address
+	chal("taskContract-nonOwnerArg", avsT.Eth, stranger.Eth, true, true)
+}
+
 func domAuth(env *Env) error {
 	env.Report.Domain = "auth"
 	n := env.Int("histories", 1)
@@ -573,6 +788,7 @@ func domAuth(env *Env) error {
 			h.sdkMsgGroup()
 			h.paramsGroup()
 			h.oracleGroup()
+			h.taskGroup()
 			env.Report.Histories++
 			if hi == 0 {
 				env.Sample(strings.Join(h.hist[:min(len(h.hist), 12)], " ; "))
